@@ -414,9 +414,15 @@ pub fn chunk_main(args: &[String]) -> i32 {
     let mut n = 0u64;
     for i in lo..hi.min(sp.total) {
         let (what, text) = sp.get(i);
-        let t0 = Instant::now();
+        // CPU time of this thread, so that the load on the machine does not enter the measurement
+        let cpu_now = || -> u128 {
+            let mut ts: libc::timespec = unsafe { std::mem::zeroed() };
+            unsafe { libc::clock_gettime(libc::CLOCK_THREAD_CPUTIME_ID, &mut ts) };
+            ts.tv_sec as u128 * 1000 + ts.tv_nsec as u128 / 1_000_000
+        };
+        let t0 = cpu_now();
         let bad = run_case(&text, &mut vm);
-        let ms = t0.elapsed().as_millis();
+        let ms = cpu_now() - t0;
         if ms > 20 && std::env::var("VERIF_DEBUG").is_ok() {
             eprintln!("DEBUG {} ms  {} bytes  {}", ms, text.len(), what);
         }
@@ -654,8 +660,6 @@ pub fn run(tier: &Tier) -> i32 {
         }
     }
     let cli_timings: std::sync::Mutex<Vec<(String, usize, u64)>> = std::sync::Mutex::new(Vec::new());
-
-    eprintln!("phase in-process done at {:?}", rep.started.elapsed());
     // ---------------- the print reader: prompt sessions of the real binary
     let prompt_lines = AtomicU64::new(0);
     {
@@ -715,8 +719,6 @@ pub fn run(tier: &Tier) -> i32 {
             }
         });
     }
-
-    eprintln!("phase prompt done at {:?}", rep.started.elapsed());
     // ---------------- source files through the binary
     let files = AtomicU64::new(0);
     {
@@ -735,7 +737,6 @@ pub fn run(tier: &Tier) -> i32 {
             cli_verdict(rep, c, "source file / short byte string", &format!("bytes {:02X?}", b), b, "", false, 6000, 400_000);
             files.fetch_add(1, Ordering::Relaxed);
         });
-        eprintln!("phase bytes done at {:?}", rep.started.elapsed());
         // (2) the size families and special shapes, plain and -i with a closed stdin
         let fam: Vec<(usize, bool)> = (0..sp.fam.len()).flat_map(|k| [(k, false), (k, true)]).collect();
         fam.par_iter().for_each(|(k, interp)| {
@@ -747,7 +748,7 @@ pub fn run(tier: &Tier) -> i32 {
                 eprintln!("SLOW {} ms {} interp={} timeout={}", o.wall_ms, name, interp, o.timed_out);
             }
             if !*interp && !o.timed_out {
-                cli_timings.lock().unwrap().push((format!("family: {}", name), text.len(), o.wall_ms));
+                cli_timings.lock().unwrap().push((format!("family: {}", name), text.len(), o.cpu_ms));
             }
             files.fetch_add(1, Ordering::Relaxed);
         });
@@ -757,7 +758,6 @@ pub fn run(tier: &Tier) -> i32 {
                 rep.report(Viol { site, field: "time".into(), vars: vec![], got_val: None, expected: "time proportional to the input".into(), got, case: json!({"family": fam}), weight: 0 });
             }
         }
-        eprintln!("phase families done at {:?}", rep.started.elapsed());
         // (3) invalid UTF-8 and binary garbage
         let mut garbage: Vec<(String, Vec<u8>)> = Vec::new();
         garbage.push(("lone continuation bytes".into(), vec![0x80; 100]));
@@ -794,7 +794,6 @@ pub fn run(tier: &Tier) -> i32 {
             cli_verdict(rep, c, "source file / 1-edit of a seed", what, b, "n\nn\n", false, 6000, 400_000);
             files.fetch_add(1, Ordering::Relaxed);
         });
-        eprintln!("phase edits done at {:?}", rep.started.elapsed());
     }
 
     for k in [0usize, sp.total / 3, sp.total / 2, sp.total - 40, sp.total - 1] {
@@ -823,7 +822,7 @@ pub fn run(tier: &Tier) -> i32 {
     cov.rule = format!("in-process (each case to the real Preprocessor, and if at most 4 KB also as one line to the real DataParser and Interpreter; executed in child processes of the harness, an abnormal end is bisected to the single culprit): ALL strings of length <= {} over a {}-character alphabet (letters, digits, quotes, brackets, parentheses, punctuation, space, newline, NUL, tab, two non-ASCII characters), ALL sequences of <= 3 tokens over {} terminals of the source grammar, the COMPLETE 1-edit neighbourhood (delete, duplicate, substitute by each alphabet character, append) of {} seeds (the repository's examples and 4 mini programs), 2-edit neighbourhoods of the short seeds, and {} pathological inputs (33 families at sizes 10..10^5: line counts, blank lines, digit counts in every radix, string lengths, bracket / parenthesis nesting, nested macro uses, macro chains, labels, procedures, macro definitions, parameters; empty file, no final newline, CR / CRLF, NUL, BOM, non-ASCII, recursive macros, 1 MB of one character). Print reader: every string of length <= 3 and every 'print a b' / 'print mem a b' over the token alphabet typed as a line of a prompt session of the real binary, plus lines with up to 10^5 digits. Source files through the real binary: all byte strings of length <= 1, length 2 over a {}-byte subset, every family input plain and with -i (closed stdin), invalid UTF-8, and deletion + {} substitutions at every position of two seeds. Verdict: exit status 0/1, no signal, no watchdog expiry (unless the replica loop shows that the mutated program itself does not halt), peak memory and time under coarse ceilings", if tier.thorough { 4 } else { 3 }, sp.chars.len(), sp.toks.len(), sp.seeds.len(), sp.fam.len(), if tier.thorough { 256 } else { 70 }, if tier.thorough { 9 } else { 4 });
     cov.bounds = json!({"in_process_cases": sp.total, "in_process_cases_completed": counted.load(Ordering::Relaxed), "generators": gen_desc, "family_inputs": sp.fam.len(), "prompt_lines": prompt_lines.load(Ordering::Relaxed), "source_files_through_the_binary": files.load(Ordering::Relaxed), "tier": tier.name()});
     cov.assumptions = common_assumptions();
-    cov.assumptions.push("'time and memory proportional to the input' is checked only as absolute ceilings on finite families (binary: 10 s / 400 MB below 100 KB of input, 30 s / 1.5 GB above; in-process 120 s) and, within each size family, as a scaling test: from one size to the next the cost per byte must not grow more than 5-fold once the time exceeds 1.5 s; no asymptotic claim".into());
+    cov.assumptions.push("'time and memory proportional to the input' is checked only as absolute ceilings on finite families (binary: 10 s / 400 MB below 100 KB of input, 30 s / 1.5 GB above; in-process 120 s) and, within each size family, as a scaling test: from one size to the next the cost per byte (CPU time of the handling thread / child process, so that the load on the machine does not matter) must not grow more than 5-fold once the time exceeds 1.5 s; no asymptotic claim".into());
     cov.assumptions.push("a watchdog expiry of the binary counts only if the replica run loop (real Interpreter, 20 000 steps) shows that the program itself halts".into());
     cov.cli_runs = CLI_RUNS.load(Ordering::Relaxed);
     cov.distinct_nontrivial = sp.total as u64;
